@@ -226,4 +226,548 @@ Qed.
 
 End Push.
 
+(* ------------------------------------------------------------------ *)
+(** * Transfers *)
+
+Notation frac_transfer := (frac_transfer cand ceqb).
+Notation remove_cand_bs := (remove_cand_bs cand ceqb).
+
+Definition hfrac (w : cand) (tv : Q) (b : ballot) : ballot :=
+  mkBallot (strip [w] (rk b)) (if first_is w b then wt b * tv else wt b) [] (bid b) (vs b).
+Definition phifrac (w : cand) (tv : Q) (r : ranking) : Q := if first_rk w r then tv else 1.
+Definition frac_out (w : cand) (fpv t : Q) (bs : list ballot) : list ballot :=
+  condense_bs (filter (keep_ballot cand) (map (hfrac w ((fpv - t) / fpv)) bs)).
+
+Definition ranked (bs : list ballot) : Prop := Forall (fun b : ballot => rk b <> []) bs.
+
+Lemma frac_ok : forall w fpv bs t, ranked bs -> Qeq_bool fpv 0 = false ->
+  frac_transfer w fpv bs t = inl (frac_out w fpv t bs).
+Proof.
+  intros w fpv bs t Hr Hz. unfold STV.frac_transfer. rewrite Hz.
+  rewrite (rmap_total _ _ _ (hfrac w ((fpv - t) / fpv)) bs); [reflexivity|].
+  intros a Ha. unfold ranked in Hr. rewrite Forall_forall in Hr. pose proof (Hr a Ha) as Hne.
+  unfold hfrac. destruct (rk a) as [|g r] eqn:E; [exfalso; apply Hne; reflexivity|reflexivity].
+Qed.
+
+Lemma frac_zero : forall w fpv bs t, Qeq_bool fpv 0 = true -> frac_transfer w fpv bs t = inr EZeroDiv.
+Proof. intros w fpv bs t Hz. unfold STV.frac_transfer. rewrite Hz. reflexivity. Qed.
+
+Lemma hfrac_spec : forall w tv b,
+  rk (hfrac w tv b) = strip [w] (rk b) /\ sc (hfrac w tv b) = [] /\
+  wt (hfrac w tv b) == wt b * phifrac w tv (rk b).
+Proof.
+  intros w tv b. split; [reflexivity|]. split; [reflexivity|]. unfold hfrac, phifrac. cbn [wt].
+  change (first_is w b) with (first_rk w (rk b)). destruct (first_rk w (rk b)); ring.
+Qed.
+
+Theorem frac_out_anonymous : forall w fpv fpv' t bs bs',
+  nonneg_wts bs -> nonneg_wts bs' -> fpv == fpv' -> dist_eq bs bs' ->
+  dist_eq (frac_out w fpv t bs) (frac_out w fpv' t bs').
+Proof.
+  intros w fpv fpv' t bs bs' Hn Hn' Hf Hde. unfold frac_out.
+  apply (dtrans _ (filter (keep_ballot cand) (map (hfrac w ((fpv - t) / fpv)) bs)));
+    [apply dsym, (dist_eq_condense cand ceqb ceqb_spec)|].
+  apply (dtrans _ (filter (keep_ballot cand) (map (hfrac w ((fpv' - t) / fpv')) bs')));
+    [|apply (dist_eq_condense cand ceqb ceqb_spec)].
+  apply (dist_eq_push (strip [w]) (@nonempty (list cand))
+           (strip_compat cand ceqb ceqb_spec [w]) (ranking_eqb_nonempty_eq cand ceqb)
+           (hfrac w ((fpv - t) / fpv)) (hfrac w ((fpv' - t) / fpv'))
+           (phifrac w ((fpv - t) / fpv)) (phifrac w ((fpv' - t) / fpv'))); try assumption.
+  - apply hfrac_spec.
+  - apply hfrac_spec.
+  - intros a b H. unfold phifrac. rewrite (first_rk_compat w a b H). reflexivity.
+  - intros r. unfold phifrac. destruct (first_rk w r); [rewrite Hf; reflexivity|reflexivity].
+Qed.
+
+Lemma frac_out_nonneg : forall w fpv t bs, nonneg_wts (frac_out w fpv t bs).
+Proof.
+  intros w fpv t bs. unfold frac_out. apply (nonneg_condense cand ceqb).
+  unfold Anon.nonneg_wts. apply Forall_forall. intros x Hx. apply filter_In in Hx. destruct Hx as [_ Hk].
+  unfold STV.keep_ballot in Hk. apply andb_true_iff in Hk. destruct Hk as [_ Hp].
+  apply C12_edit.pos_wt_iff in Hp. lra.
+Qed.
+
+(* deterministic transfers: what they return *)
+Definition tr_out (k : transfer_kind) (w : cand) (fpv t : Q) (bs : list ballot) : list ballot :=
+  match k with
+  | TFractional => frac_out w fpv t bs
+  | _ => remove_cand_bs [w] true false bs
+  end.
+Definition tr_zero (k : transfer_kind) (fpv : Q) : bool :=
+  match k with TFractional => Qeq_bool fpv 0 | _ => false end.
+
+Lemma do_transfer_det : forall k w fpv bs t (s : mstate), k <> TRandom -> ranked bs ->
+  do_transfer cand ceqb k w fpv bs t s =
+  if tr_zero k fpv then inr EZeroDiv else inl (tr_out k w fpv t bs, s).
+Proof.
+  intros k w fpv bs t s Hk Hr. destruct k; [| exfalso; apply Hk; reflexivity |].
+  - cbn [STV.do_transfer tr_zero tr_out]. unfold mlift.
+    destruct (Qeq_bool fpv 0) eqn:E; [rewrite frac_zero by exact E; reflexivity|].
+    rewrite frac_ok by assumption. reflexivity.
+  - reflexivity.
+Qed.
+
+Theorem tr_out_anonymous : forall k w fpv fpv' t bs bs',
+  nonneg_wts bs -> nonneg_wts bs' -> fpv == fpv' -> dist_eq bs bs' ->
+  dist_eq (tr_out k w fpv t bs) (tr_out k w fpv' t bs').
+Proof.
+  intros k w fpv fpv' t bs bs' Hn Hn' Hf Hde. destruct k; cbn [tr_out].
+  - apply frac_out_anonymous; assumption.
+  - apply (remove_cand_bs_anonymous cand ceqb ceqb_spec); try assumption. intros c; reflexivity.
+  - apply (remove_cand_bs_anonymous cand ceqb ceqb_spec); try assumption. intros c; reflexivity.
+Qed.
+
+Lemma tr_out_nonneg : forall k w fpv t bs, nonneg_wts bs -> nonneg_wts (tr_out k w fpv t bs).
+Proof.
+  intros k w fpv t bs H. destruct k; cbn [tr_out];
+    [apply frac_out_nonneg|apply (nonneg_remove cand ceqb); exact H|apply (nonneg_remove cand ceqb); exact H].
+Qed.
+
+Lemma tr_zero_comp : forall k a b, a == b -> tr_zero k a = tr_zero k b.
+Proof. intros k a b H. destruct k; cbn [tr_zero]; try reflexivity. apply Qeq_bool_comp; [exact H|reflexivity]. Qed.
+
+(* tallies looked up in equivalent dictionaries *)
+Lemma lookup0_equiv : forall (d d' : scores) c, NoDup (map fst d) -> NoDup (map fst d') ->
+  scores_equiv d d' -> lookup0 cand ceqb c d == lookup0 cand ceqb c d'.
+Proof.
+  intros d d' c Hn Hn' [Hk Hv].
+  destruct (in_dec (cand_eq_dec cand ceqb ceqb_spec) c (map fst d)) as [Hin|Hnin].
+  - destruct (in_keys_pair cand d c Hin) as [q Hq].
+    assert (Hin' : In c (map fst d')) by (eapply Permutation_in; eassumption).
+    destruct (in_keys_pair cand d' c Hin') as [q' Hq'].
+    rewrite (lookup0_in cand ceqb ceqb_spec d c q Hn Hq), (lookup0_in cand ceqb ceqb_spec d' c q' Hn' Hq').
+    apply (Hv c q q' Hq Hq').
+  - rewrite (lookup0_notin cand ceqb ceqb_spec d c Hnin), (lookup0_notin cand ceqb ceqb_spec d' c); [reflexivity|].
+    intros Hin'. apply Hnin. eapply Permutation_in; [apply Permutation_sym; exact Hk|exact Hin'].
+Qed.
+
+(* the transfers of all simultaneous winners *)
+Lemma transfer_all_det : forall k ws (p : profile) (d : scores) t (s : mstate),
+  k <> TRandom -> ranked (ballots p) -> incl ws (cands p) ->
+  transfer_all cand ceqb k ws p d t s =
+  if existsb (fun w => tr_zero k (lookup0 cand ceqb w d)) ws then inr EZeroDiv
+  else inl (concat (map (fun w => tr_out k w (lookup0 cand ceqb w d) t (pile p w)) ws), s).
+Proof.
+  intros k ws p d t s Hk Hr. induction ws as [|w ws IH]; intros Hincl; [reflexivity|].
+  cbn [STV.transfer_all existsb map concat].
+  assert (Hm : memb w (cands p) = true).
+  { apply (Lib_sets.memb_In cand ceqb ceqb_spec). apply Hincl. left. reflexivity. }
+  rewrite Hm. cbn [negb]. unfold mbind.
+  assert (Hrp : ranked (pile p w)).
+  { unfold ranked, Core.pile. apply Forall_forall. intros b Hb. apply filter_In in Hb.
+    unfold ranked in Hr. rewrite Forall_forall in Hr. apply Hr, Hb. }
+  rewrite (do_transfer_det k w _ _ t s Hk Hrp).
+  destruct (tr_zero k (lookup0 cand ceqb w d)); [reflexivity|]. cbn [orb].
+  rewrite IH by (intros x Hx; apply Hincl; right; exact Hx).
+  destruct (existsb (fun w0 => tr_zero k (lookup0 cand ceqb w0 d)) ws); reflexivity.
+Qed.
+
+Lemma existsb_perm : forall {A} (f : A -> bool) l l', Permutation l l' -> existsb f l = existsb f l'.
+Proof.
+  intros A f l l' H. induction H as [|x l l' _ IH|x y l|l l' l'' _ IH1 _ IH2]; cbn [existsb].
+  - reflexivity.
+  - rewrite IH. reflexivity.
+  - destruct (f x); destruct (f y); reflexivity.
+  - congruence.
+Qed.
+
+Lemma existsb_ext_in : forall {A} (f g : A -> bool) l, (forall a, In a l -> f a = g a) -> existsb f l = existsb g l.
+Proof.
+  intros A f g l H. induction l as [|a l IH]; [reflexivity|]. cbn [existsb].
+  rewrite (H a (or_introl eq_refl)), IH; [reflexivity|]. intros x Hx. apply H. right. exact Hx.
+Qed.
+
+Definition transfers (k : transfer_kind) (ws : list cand) (p : profile) (d : scores) (t : Q) : list ballot :=
+  concat (map (fun w => tr_out k w (lookup0 cand ceqb w d) t (pile p w)) ws).
+
+Theorem transfers_anonymous : forall k ws ws' (p p' : profile) (d d' : scores) t,
+  Permutation ws ws' -> nonneg_wts (ballots p) -> nonneg_wts (ballots p') ->
+  dist_eq (ballots p) (ballots p') ->
+  (forall c, lookup0 cand ceqb c d == lookup0 cand ceqb c d') ->
+  existsb (fun w => tr_zero k (lookup0 cand ceqb w d)) ws =
+  existsb (fun w => tr_zero k (lookup0 cand ceqb w d')) ws' /\
+  dist_eq (transfers k ws p d t) (transfers k ws' p' d' t).
+Proof.
+  intros k ws ws' p p' d d' t Hp Hn Hn' Hde Hl. split.
+  - rewrite (existsb_perm _ ws ws' Hp). apply existsb_ext_in. intros w _. apply tr_zero_comp, Hl.
+  - unfold transfers.
+    apply (dtrans _ (concat (map (fun w => tr_out k w (lookup0 cand ceqb w d) t (pile p w)) ws')));
+      [apply dist_eq_concat_perm; exact Hp|].
+    apply dist_eq_concat_map. intros w _.
+    assert (Hpn : forall q : profile, nonneg_wts (ballots q) -> nonneg_wts (pile q w)).
+    { intros q Hq. unfold Core.pile. apply (nonneg_filter cand). exact Hq. }
+    apply tr_out_anonymous; [apply Hpn; exact Hn|apply Hpn; exact Hn'|apply Hl|apply pile_anonymous; exact Hde].
+Qed.
+
+(* ------------------------------------------------------------------ *)
+(** * The quota test *)
+
+Definition uniform (r : ranking) (d : scores) : Prop :=
+  forall g c1 c2, In g r -> In c1 g -> In c2 g -> lookup0 cand ceqb c1 d == lookup0 cand ceqb c2 d.
+
+Theorem quota_groups_anonymous : forall r r' (d d' : scores) t,
+  groups_equiv r r' -> uniform r d ->
+  (forall c, lookup0 cand ceqb c d == lookup0 cand ceqb c d') ->
+  res_equiv groups_equiv (quota_groups cand ceqb r d t) (quota_groups cand ceqb r' d' t).
+Proof.
+  intros r r' d d' t H. induction H as [|g g' r r' Hg Hr IH]; intros Hu Hl.
+  - cbn. constructor.
+  - cbn [STV.quota_groups].
+    destruct g as [|c g0]; [apply Permutation_nil in Hg; subst g'; reflexivity|].
+    destruct g' as [|c' g0']; [apply Permutation_sym, Permutation_nil in Hg; discriminate|].
+    assert (Hc' : In c' (c :: g0)).
+    { eapply Permutation_in; [apply Permutation_sym; exact Hg|left; reflexivity]. }
+    assert (Hsc : STV.score_ge cand ceqb d t c = STV.score_ge cand ceqb d' t c').
+    { unfold STV.score_ge. apply Qle_bool_comp; [reflexivity|].
+      rewrite <- (Hl c'). apply (Hu (c :: g0) c c'); [left; reflexivity|left; reflexivity|exact Hc']. }
+    rewrite <- Hsc. destruct (STV.score_ge cand ceqb d t c); [|cbn; constructor].
+    assert (IH' : res_equiv groups_equiv (quota_groups cand ceqb r d t) (quota_groups cand ceqb r' d' t)).
+    { apply IH; [|exact Hl]. intros g c1 c2 Hin. apply Hu. right. exact Hin. }
+    destruct (quota_groups cand ceqb r d t) as [x|e]; destruct (quota_groups cand ceqb r' d' t) as [x'|e'];
+      cbn [res_equiv] in IH'; try contradiction; cbn [rbind ok res_equiv].
+    + constructor; assumption.
+    + exact IH'.
+Qed.
+
+(* ------------------------------------------------------------------ *)
+(** * The STV domain and its preservation *)
+
+Notation stv_ballot_ok := (stv_ballot_ok cand).
+Notation stv_domain := (stv_domain cand).
+Notation stv_state_ok := (stv_state_ok cand).
+Notation all_ok cs := (Forall (stv_ballot_ok cs)).
+
+Lemma ok_weaken : forall cs cs' b, incl cs cs' -> stv_ballot_ok cs b -> stv_ballot_ok cs' b.
+Proof.
+  intros cs cs' b Hi [H1 [H2 [H3 [H4 [H5 H6]]]]]. repeat split; try assumption.
+  intros c Hc. apply Hi, H4, Hc.
+Qed.
+Lemma all_ok_weaken : forall cs cs' bs, incl cs cs' -> all_ok cs bs -> all_ok cs' bs.
+Proof. intros cs cs' bs Hi H. eapply Forall_impl; [|exact H]. intros b. apply ok_weaken. exact Hi. Qed.
+
+Lemma domain_wf : forall p, stv_domain p -> wf_profile p.
+Proof.
+  intros p [Hnd Hb]. split; [exact Hnd|]. eapply Forall_impl; [|exact Hb].
+  intros b [H1 [H2 [H3 [H4 _]]]]. split; [exact H1|]. split; [|split; assumption].
+  eapply Forall_impl; [|exact H2]. intros g Hg Hnil. rewrite Hnil in Hg. discriminate.
+Qed.
+Lemma domain_sf : forall p, stv_domain p -> score_free (ballots p).
+Proof. intros p [_ Hb]. unfold EditSpec.score_free. eapply Forall_impl; [|exact Hb]. intros b H. apply H. Qed.
+Lemma all_ok_nonneg : forall cs bs, all_ok cs bs -> nonneg_wts bs.
+Proof. intros cs bs H. unfold Anon.nonneg_wts. eapply Forall_impl; [|exact H]. intros b Hb. apply Hb. Qed.
+Lemma domain_nonneg : forall p, stv_domain p -> nonneg_wts (ballots p).
+Proof. intros p [_ Hb]. exact (all_ok_nonneg _ _ Hb). Qed.
+Lemma all_ok_ranked : forall cs bs, all_ok cs bs -> ranked bs.
+Proof. intros cs bs H. unfold ranked. eapply Forall_impl; [|exact H]. intros b Hb. apply Hb. Qed.
+
+Lemma strip_singletons : forall W r, Forall (fun g : cset => length g = 1%nat) r ->
+  Forall (fun g : cset => length g = 1%nat) (strip W r).
+Proof.
+  intros W r H. rewrite Forall_forall in H |- *. intros g' Hg'.
+  apply (C12_edit.strip_groups cand ceqb) in Hg'. destruct Hg' as [Hne [g [Hg ->]]].
+  pose proof (H g Hg) as Hl. destruct g as [|c [|c2 g]]; try discriminate.
+  cbn [filter] in *. destruct (negb (memb c W)); [reflexivity|exfalso; apply Hne; reflexivity].
+Qed.
+
+(* a stripped valid ballot that still ranks somebody is valid over the reduced candidate list *)
+Lemma strip_ok : forall W cs (r : ranking),
+  Forall (fun g : cset => length g = 1%nat) r -> NoDup (flat r) -> incl (flat r) cs ->
+  Forall (fun g : cset => length g = 1%nat) (strip W r) /\ NoDup (flat (strip W r)) /\
+  incl (flat (strip W r)) (set_diff cs W).
+Proof.
+  intros W cs r H1 H2 H3. split; [apply strip_singletons; exact H1|]. split.
+  - rewrite (C12_edit.strip_flat cand ceqb). apply NoDup_filter. exact H2.
+  - intros c Hc. apply (C12_edit.strip_keeps cand ceqb ceqb_spec) in Hc. destruct Hc as [Hc Hn].
+    apply (Lib_sets.set_diff_In cand ceqb ceqb_spec). split; [apply H3; exact Hc|exact Hn].
+Qed.
+
+Lemma nonempty_has_member : forall r : ranking, r <> [] -> Forall (fun g : cset => length g = 1%nat) r ->
+  exists c, In c (flat r).
+Proof.
+  intros [|g r] Hne H; [exfalso; apply Hne; reflexivity|]. inversion H as [|x l Hg _]; subst.
+  destruct g as [|c g]; [discriminate|]. exists c. rewrite (flat_cons cand). left. reflexivity.
+Qed.
+
+Lemma remove_bs_ok : forall W cs bs, all_ok cs bs ->
+  all_ok (set_diff cs W) (remove_cand_bs W true false bs) /\
+  (remove_cand_bs W true false bs <> [] -> set_diff cs W <> []).
+Proof.
+  intros W cs bs Hb. rewrite Forall_forall in Hb.
+  assert (Hmem : forall k, In k (remove_cand_bs W true false bs) ->
+            stv_ballot_ok (set_diff cs W) k /\ set_diff cs W <> []).
+  { intros k Hk. destruct (remove_member cand ceqb W bs k Hk) as [b [Hin [Hrk [Hsc Hlive]]]].
+    destruct (Hb b Hin) as [H1 [H2 [H3 [H4 [H5 H6]]]]].
+    unfold live in Hlive. rewrite H6 in Hlive, Hsc. cbn in Hlive, Hsc. rewrite orb_false_r in Hlive.
+    apply (nonempty_true_ne) in Hlive.
+    destruct (strip_ok W cs (rk b) H2 H3 H4) as [S1 [S2 S3]].
+    assert (Hw : 0 <= wt k).
+    { assert (Hn0 : nonneg_wts bs).
+      { unfold Anon.nonneg_wts. apply Forall_forall. intros x Hx. apply (Hb x Hx). }
+      pose proof (nonneg_remove cand ceqb W bs Hn0) as Hn. unfold Anon.nonneg_wts in Hn.
+      rewrite Forall_forall in Hn. apply Hn. exact Hk. }
+    split.
+    - rewrite <- Hrk in Hlive, S1, S2, S3. repeat split; assumption.
+    - destruct (nonempty_has_member (strip W (rk b)) Hlive S1) as [c Hc]. apply S3 in Hc.
+      intros Hnil. rewrite Hnil in Hc. destruct Hc. }
+  split.
+  - apply Forall_forall. intros k Hk. apply (Hmem k Hk).
+  - intros Hne. destruct (remove_cand_bs W true false bs) as [|k l] eqn:E; [exfalso; apply Hne; reflexivity|].
+    apply (Hmem k). left. reflexivity.
+Qed.
+
+Lemma frac_out_ok : forall w fpv t cs bs, all_ok cs bs -> all_ok cs (frac_out w fpv t bs).
+Proof.
+  intros w fpv t cs bs Hb. rewrite Forall_forall in Hb. apply Forall_forall. intros k Hk.
+  pose proof (frac_out_nonneg w fpv t bs) as Hn. unfold Anon.nonneg_wts in Hn. rewrite Forall_forall in Hn.
+  pose proof (Hn k Hk) as Hw. unfold frac_out in Hk.
+  destruct (condense_no_invented cand ceqb _ k Hk) as [y [Hy [Hrk Hsc]]].
+  apply filter_In in Hy. destruct Hy as [Hy Hkeep]. apply in_map_iff in Hy. destruct Hy as [b [<- Hin]].
+  destruct (Hb b Hin) as [H1 [H2 [H3 [H4 [H5 H6]]]]].
+  unfold STV.keep_ballot in Hkeep. apply andb_true_iff in Hkeep. destruct Hkeep as [Hne _].
+  cbn [hfrac rk sc] in Hrk, Hsc, Hne. apply nonempty_true_ne in Hne.
+  destruct (strip_ok [w] cs (rk b) H2 H3 H4) as [S1 [S2 S3]].
+  rewrite <- Hrk in Hne, S1, S2, S3. repeat split; try assumption.
+  intros c Hc. apply S3 in Hc. apply (Lib_sets.set_diff_In cand ceqb ceqb_spec) in Hc. apply Hc.
+Qed.
+
+Lemma tr_out_ok : forall k w fpv t cs bs, all_ok cs bs -> all_ok cs (tr_out k w fpv t bs).
+Proof.
+  intros k w fpv t cs bs Hb.
+  assert (Hi : incl (set_diff cs [w]) cs).
+  { intros c Hc. apply (Lib_sets.set_diff_In cand ceqb ceqb_spec) in Hc. apply Hc. }
+  destruct k; cbn [tr_out]; [apply frac_out_ok; exact Hb| |];
+    apply (all_ok_weaken _ _ _ Hi), (remove_bs_ok [w] cs bs Hb).
+Qed.
+
+Lemma pile_ok : forall (p : profile) w, all_ok (cands p) (ballots p) -> all_ok (cands p) (pile p w).
+Proof.
+  intros p w H. unfold Core.pile. rewrite Forall_forall in H |- *. intros b Hb. apply filter_In in Hb. apply H, Hb.
+Qed.
+
+Lemma concat_ok : forall cs (F : cand -> list ballot) l, (forall c, all_ok cs (F c)) -> all_ok cs (concat (map F l)).
+Proof.
+  intros cs F l H. induction l as [|c l IH]; cbn [map concat]; [constructor|]. apply Forall_app. split; [apply H|exact IH].
+Qed.
+
+(* ------------------------------------------------------------------ *)
+(** * The next profile of an election round *)
+
+Definition next_cands (W : cset) (bsX : list ballot) (cs : cset) : cset :=
+  match set_diff cs W with
+  | [] => cast_cands cand ceqb (remove_cand_bs W true false bsX)
+  | _ :: _ => set_diff cs W
+  end.
+Definition next_profile (W : cset) (bsX : list ballot) (cs : cset) : profile :=
+  mkProfile (remove_cand_bs W true false bsX) (next_cands W bsX cs).
+
+Lemma mk_next_ok : forall W bsX cs, NoDup cs ->
+  mk_profile cand ceqb (remove_cand_bs W true false bsX) (set_diff cs W) = inl (next_profile W bsX cs).
+Proof.
+  intros W bsX cs H. rewrite (mk_profile_nodup cand ceqb ceqb_spec); [reflexivity|].
+  apply (Lib_sets.set_diff_NoDup cand ceqb). exact H.
+Qed.
+
+Theorem next_profile_anonymous : forall W W' bsX bsX' cs cs',
+  nonneg_wts bsX -> nonneg_wts bsX' -> seteq W W' -> dist_eq bsX bsX' -> Permutation cs cs' ->
+  profile_equiv (next_profile W bsX cs) (next_profile W' bsX' cs').
+Proof.
+  intros W W' bsX bsX' cs cs' Hn Hn' HW Hde Hperm.
+  pose proof (remove_cand_bs_anonymous cand ceqb ceqb_spec W W' _ _ Hn Hn' HW Hde) as Hde1.
+  split; cbn [ballots cands next_profile]; [exact Hde1|]. unfold next_cands.
+  rewrite <- (set_diff_seteq cand ceqb ceqb_spec cs' W W' HW).
+  assert (Hp : Permutation (set_diff cs W) (set_diff cs' W)).
+  { unfold Core.set_diff. apply Permutation_filter_local. exact Hperm. }
+  destruct (set_diff cs W) as [|c l] eqn:E.
+  - apply Permutation_nil in Hp. rewrite Hp.
+    apply (cast_cands_anonymous cand ceqb ceqb_spec); try apply (nonneg_remove cand ceqb); assumption.
+  - destruct (set_diff cs' W) as [|c' l'] eqn:E'; [|exact Hp].
+    apply Permutation_sym, Permutation_nil in Hp. discriminate.
+Qed.
+
+Lemma next_profile_domain : forall W bsX cs, NoDup cs -> all_ok cs bsX -> stv_domain (next_profile W bsX cs).
+Proof.
+  intros W bsX cs Hnd Hb. destruct (remove_bs_ok W cs bsX Hb) as [Hok Hne].
+  unfold next_profile, next_cands. split; cbn [ballots cands].
+  - destruct (set_diff cs W) eqn:E; [apply (Lib_sets.dedup_NoDup cand ceqb ceqb_spec)|].
+    rewrite <- E. apply (Lib_sets.set_diff_NoDup cand ceqb). exact Hnd.
+  - destruct (set_diff cs W) as [|c l] eqn:E; [|exact Hok].
+    destruct (remove_cand_bs W true false bsX) as [|k bs1] eqn:E1; [constructor|].
+    exfalso. apply Hne; [discriminate|reflexivity].
+Qed.
+
+Lemma remove_cand_prof_next : forall W (p : profile), NoDup (cands p) ->
+  remove_cand_prof cand ceqb W true false p = inl (next_profile W (ballots p) (cands p)).
+Proof. intros W p H. unfold Core.remove_cand_prof. apply mk_next_ok. exact H. Qed.
+
+(* ------------------------------------------------------------------ *)
+(** * Plumbing for the monadic code *)
+
+Notation mres_equiv := (mres_equiv cand).
+Notation tiebreak_equiv := (tiebreak_equiv cand).
+Notation stv_step_equiv := (stv_step_equiv cand ceqb).
+
+Lemma mbind_equiv : forall {A B} (R : A -> A -> Prop) (R2 : B -> B -> Prop)
+    (x y : M cand A) (f g : A -> M cand B) (s : mstate),
+  mres_equiv R (x s) (y s) ->
+  (forall a b s1, R a b -> mres_equiv R2 (f a s1) (g b s1)) ->
+  mres_equiv R2 (mbind x f s) (mbind y g s).
+Proof.
+  intros A B R R2 x y f g s H Hf. unfold mbind.
+  destruct (x s) as [[a s1]|e]; destruct (y s) as [[b s2]|e']; cbn in H; try contradiction.
+  - destruct H as [HR Hs]. cbn [fst snd] in HR, Hs. subst s2. apply Hf. exact HR.
+  - exact H.
+Qed.
+
+Lemma mlift_equiv : forall {A} (R : A -> A -> Prop) (x y : res A) (s : mstate),
+  res_equiv R x y -> mres_equiv R (mlift x s) (mlift y s).
+Proof.
+  intros A R x y s H. unfold mlift. destruct x as [a|e]; destruct y as [b|e']; cbn in H |- *; try contradiction.
+  - split; [exact H|reflexivity].
+  - exact H.
+Qed.
+
+Lemma match_nonempty : forall {A B} (l : list A) (X Y : B),
+  match l with _ :: _ => X | [] => Y end = if nonempty l then X else Y.
+Proof. intros A B [|a l] X Y; reflexivity. Qed.
+
+Lemma above_agree : forall (d d' : scores) t, scores_equiv d d' ->
+  nonempty (filter (fun q : cand * Q => Qle_bool t (snd q)) d) =
+  nonempty (filter (fun q : cand * Q => Qle_bool t (snd q)) d').
+Proof.
+  assert (Hone : forall (d d' : scores) t, scores_equiv d d' ->
+            nonempty (filter (fun q : cand * Q => Qle_bool t (snd q)) d) = true ->
+            nonempty (filter (fun q : cand * Q => Qle_bool t (snd q)) d') = true).
+  { intros d d' t He H. destruct (filter (fun q : cand * Q => Qle_bool t (snd q)) d) as [|[c q] l] eqn:E; [discriminate|].
+    assert (Hin : In (c, q) (filter (fun q : cand * Q => Qle_bool t (snd q)) d)) by (rewrite E; left; reflexivity).
+    apply filter_In in Hin. destruct Hin as [Hin Hq]. cbn [snd] in Hq.
+    destruct (scores_equiv_partner cand d d' c q He Hin) as [q' [Hin' Hqq]].
+    assert (Hin2 : In (c, q') (filter (fun q : cand * Q => Qle_bool t (snd q)) d')).
+    { apply filter_In. split; [exact Hin'|]. cbn [snd].
+      rewrite <- (Qle_bool_comp t t q q' (Qeq_refl t) Hqq). exact Hq. }
+    destruct (filter (fun q : cand * Q => Qle_bool t (snd q)) d'); [destruct Hin2|reflexivity]. }
+  intros d d' t He.
+  destruct (nonempty (filter (fun q : cand * Q => Qle_bool t (snd q)) d)) eqn:E;
+  destruct (nonempty (filter (fun q : cand * Q => Qle_bool t (snd q)) d')) eqn:E'; try reflexivity.
+  - rewrite (Hone d d' t He E) in E'. discriminate.
+  - rewrite (Hone d' d t (scores_equiv_sym cand d d' He) E') in E. discriminate.
+Qed.
+
+Lemma bbfc_ok : forall p, stv_domain p -> ballots_by_first_check cand ceqb p = inl tt.
+Proof.
+  intros p [_ Hb]. unfold Core.ballots_by_first_check. induction Hb as [|b bs Hb _ IH]; [reflexivity|].
+  cbn [rfirst_err]. destruct Hb as [H1 [H2 [_ [H4 _]]]].
+  destruct (rk b) as [|g r] eqn:E; [exfalso; apply H1; reflexivity|].
+  inversion H2 as [|x l Hg _]; subst. destruct g as [|c [|c2 g]]; try discriminate.
+  assert (Hm : memb c (cands p) = true).
+  { apply (Lib_sets.memb_In cand ceqb ceqb_spec). apply H4. rewrite (flat_cons cand). left. reflexivity. }
+  rewrite Hm. cbn [rbind]. exact IH.
+Qed.
+
+Lemma subsetb_true : forall a b : cset, incl a b -> subsetb cand ceqb a b = true.
+Proof. intros a b H. apply (Lib_sets.subsetb_incl cand ceqb ceqb_spec). exact H. Qed.
+
+(* ------------------------------------------------------------------ *)
+(** * What the state gives *)
+
+Lemma state_uniform : forall p st, NoDup (cands p) -> stv_state_ok p st ->
+  uniform (remaining st) (escores st).
+Proof.
+  intros p st Hnd [Hk Hr] g c1 c2 Hg H1 H2. rewrite Hr in Hg. rewrite <- Hk in Hnd.
+  destruct (escores st) as [|p0 d0] eqn:E.
+  { cbn in Hg. destruct Hg as [<-|[]]. destruct H1. }
+  rewrite <- E in *. assert (Hne : escores st <> []) by (rewrite E; discriminate).
+  destruct (score_to_ranking_group_inv cand _ g Hne Hg) as [k [_ ->]].
+  apply (in_class_of cand _ k c1 Hnd) in H1. apply (in_class_of cand _ k c2 Hnd) in H2.
+  destruct H1 as [q1 [Hq1 Hk1]]. destruct H2 as [q2 [Hq2 Hk2]].
+  rewrite (lookup0_in cand ceqb ceqb_spec _ c1 q1 Hnd Hq1), (lookup0_in cand ceqb ceqb_spec _ c2 q2 Hnd Hq2).
+  rewrite Hk1, Hk2. reflexivity.
+Qed.
+
+Lemma state_flat : forall p st, stv_state_ok p st -> Permutation (flat (remaining st)) (cands p).
+Proof. intros p st [Hk Hr]. rewrite Hr, <- Hk. apply score_to_ranking_flat_perm_all. Qed.
+
+Lemma state_lookup : forall p p' st st', NoDup (cands p) -> NoDup (cands p') ->
+  stv_state_ok p st -> stv_state_ok p' st' -> state_equiv st st' ->
+  forall c, lookup0 cand ceqb c (escores st) == lookup0 cand ceqb c (escores st').
+Proof.
+  intros p p' st st' Hnd Hnd' [Hk _] [Hk' _] He c. apply lookup0_equiv.
+  - rewrite Hk. exact Hnd.
+  - rewrite Hk'. exact Hnd'.
+  - apply He.
+Qed.
+
+Lemma quota_groups_incl : forall r (d : scores) t el, quota_groups cand ceqb r d t = inl el ->
+  incl (flat el) (flat r).
+Proof.
+  induction r as [|g r IH]; intros d t el H; cbn [STV.quota_groups] in H.
+  - inversion H. intros c [].
+  - destruct g as [|c g0]; [discriminate|]. destruct (STV.score_ge cand ceqb d t c).
+    + destruct (quota_groups cand ceqb r d t) as [x|e] eqn:E; cbn [rbind ok] in H; [|discriminate].
+      inversion H; subst el. rewrite !(flat_cons cand). intros a Ha. apply in_app_or in Ha. apply in_or_app.
+      destruct Ha as [Ha|Ha]; [left; exact Ha|right; apply (IH d t x E); exact Ha].
+    + inversion H. intros a [].
+Qed.
+
+Lemma perm_seteq : forall a b : cset, Permutation a b -> seteq a b.
+Proof.
+  intros a b H c. split; intros Hc; [eapply Permutation_in; [exact H|exact Hc]|
+    eapply Permutation_in; [apply Permutation_sym; exact H|exact Hc]].
+Qed.
+
+Lemma all_ok_filter : forall cs (f : ballot -> bool) bs, all_ok cs bs -> all_ok cs (filter f bs).
+Proof. intros cs f bs H. rewrite Forall_forall in H |- *. intros b Hb. apply filter_In in Hb. apply H, Hb. Qed.
+
+(* the pool of ballots an election round rebuilds the profile from *)
+Definition pool (moved : list ballot) (p : profile) (others : list cand) : list ballot :=
+  filter (has_ranking cand) (moved ++ concat (map (pile p) others)).
+
+Lemma pool_ok : forall moved (p : profile) others, all_ok (cands p) (ballots p) -> all_ok (cands p) moved ->
+  all_ok (cands p) (pool moved p others).
+Proof.
+  intros moved p others Hp Hm. unfold pool. apply all_ok_filter. apply Forall_app. split; [exact Hm|].
+  apply concat_ok. intros c. apply pile_ok. exact Hp.
+Qed.
+
+Lemma pool_anonymous : forall moved moved' (p p' : profile) others others',
+  dist_eq moved moved' -> dist_eq (ballots p) (ballots p') -> Permutation others others' ->
+  dist_eq (pool moved p others) (pool moved' p' others').
+Proof.
+  intros moved moved' p p' others others' Hm Hde Hp. unfold pool. apply has_ranking_anonymous.
+  apply (dist_eq_app cand ceqb); [exact Hm|].
+  apply (dtrans _ (concat (map (pile p) others'))); [apply dist_eq_concat_perm; exact Hp|].
+  apply dist_eq_concat_map. intros c _. apply pile_anonymous. exact Hde.
+Qed.
+
+(* ------------------------------------------------------------------ *)
+(** * The last part of a step: tally the next profile *)
+
+Lemma empty_domain : stv_domain (empty_profile cand).
+Proof. split; constructor. Qed.
+
+Lemma finish_anonymous : forall (np np' : profile) r (el el' elim elim' : ranking) tbs tbs' (s : mstate),
+  profile_equiv np np' -> stv_domain np -> stv_domain np' ->
+  groups_equiv el el' -> groups_equiv elim elim' -> Forall2 tiebreak_equiv tbs tbs' ->
+  mres_equiv stv_step_equiv
+    (mbind (mlift (first_place_votes cand ceqb np))
+           (fun d => mret (np, state_of_scores cand r el elim tbs d)) s)
+    (mbind (mlift (first_place_votes cand ceqb np'))
+           (fun d => mret (np', state_of_scores cand r el' elim' tbs' d)) s).
+Proof.
+  intros np np' r el el' elim elim' tbs tbs' s He Hd Hd' Hel Helim Htbs.
+  pose proof (first_place_votes_anonymous cand ceqb ceqb_spec np np' (domain_wf np Hd) (domain_wf np' Hd') He) as H.
+  unfold mbind, mlift.
+  destruct (first_place_votes cand ceqb np) as [d|e] eqn:E; destruct (first_place_votes cand ceqb np') as [d'|e'] eqn:E';
+    cbn [res_equiv] in H; try contradiction; [|subst e'; exact eq_refl].
+  pose proof (score_rankings_keys cand ceqb np _ d E) as Hk.
+  pose proof (score_rankings_keys cand ceqb np' _ d' E') as Hk'.
+  assert (Hn : NoDup (map fst d)) by (rewrite Hk; apply Hd).
+  assert (Hn' : NoDup (map fst d')) by (rewrite Hk'; apply Hd').
+  cbn. split; [|reflexivity]. unfold Anon.stv_step_equiv. cbn [fst snd].
+  split; [exact He|]. split.
+  - unfold Anon.state_equiv, STV.state_of_scores. cbn [rnd remaining elected eliminated tiebreaks escores].
+    split; [reflexivity|]. split; [apply (ranking_of_scores cand); assumption|].
+    split; [exact Hel|]. split; [exact Helim|]. split; [exact Htbs|exact H].
+  - split; [exact Hd|]. split; [exact Hd'|]. split; split; cbn; try assumption; reflexivity.
+Qed.
+
 End StvAnon.
